@@ -76,7 +76,9 @@ func vfTOML(cfg map[string]any, names []string) string {
 		b.WriteString("advertise = true\n")
 		fmt.Fprintf(&b, "unicast_only = %t\n", vfBool(cfg, "unicast", false))
 		fmt.Fprintf(&b, "max_interval = \"%dms\"\n", vfInt(cfg, "max", 600000))
-		fmt.Fprintf(&b, "min_interval = \"%dms\"\n", vfInt(cfg, "min", 200000))
+		if mn := vfInt(cfg, "min", 200000); mn >= 0 {
+			fmt.Fprintf(&b, "min_interval = \"%dms\"\n", mn)
+		}
 		if l := vfInt(cfg, "life", -1); l >= 0 {
 			fmt.Fprintf(&b, "default_lifetime = \"%ds\"\n", l)
 		}
@@ -121,12 +123,14 @@ func vfRunScenario(t *testing.T, rec *vfRec, sc map[string]any) {
 		return
 	}
 
-	life0 := 0
+	life0, min0, max0 := 0, 0, 0
 	if mode == "adv" {
 		life0 = int(parsed.Interfaces[0].DefaultLifetime / time.Second)
+		min0 = int(parsed.Interfaces[0].MinInterval / time.Millisecond)
+		max0 = int(parsed.Interfaces[0].MaxInterval / time.Millisecond)
 	}
 	rec.emit("reset", "id", id, "mode", mode, "unicast", vfBool(cfg, "unicast", false),
-		"min", vfInt(cfg, "min", 200000), "max", vfInt(cfg, "max", 600000), "cfglife", life0,
+		"min", min0, "max", max0, "cfglife", life0,
 		"fwd", vfBool(cfg, "fwd", true), "nif", nif, "quiet", vfBool(cfg, "quiet", false))
 
 	vm := vfNewMetrics(w)
